@@ -347,6 +347,13 @@ func (w *c02World) step(tag string) c02StepResult {
 		w.nt = true
 		w.c.Label(why)
 	}
+	// interfaces of the record that are not attached to the instance in the cloud right now
+	detached := map[string]bool{}
+	for id := range prev.Status.NetworkInterfaces {
+		if ce := w.cloud.Get(id); ce == nil || ce.InstanceID != c02InstanceID {
+			detached[id] = true
+		}
+	}
 	enough := w.c08EnoughIdle(prev, pods)
 	lost := w.c08KnowledgeLost(prev, pods)
 	lostEligible := w.writeLost && w.failedWrites == 0 // judged on the passes before this one
@@ -425,6 +432,33 @@ func (w *c02World) step(tag string) c02StepResult {
 			}
 		}
 	}
+	// C02 (iv): the pass must not ask the cloud to release an address that, in the record it
+	// started from, was validly bound to a pod that still exists (scheduling for deletion
+	// and executing it within one pass leaves no Deleting entry to look at)
+	if w.s.Mode == "C02" {
+		for i := range res.calls {
+			c := &res.calls[i]
+			if c.Kind != cloudctl.KUnAssign4 && c.Kind != cloudctl.KUnAssign6 {
+				continue
+			}
+			e := prev.Status.NetworkInterfaces[c.ENI]
+			if e == nil || e.Status == aliyunClient.ENIStatusDeleting {
+				continue
+			}
+			for _, a := range c.IPs {
+				ip := e.IPv4[a]
+				if c.Kind == cloudctl.KUnAssign6 {
+					ip = e.IPv6[a]
+				}
+				if ip == nil || ip.PodID == "" || ip.Status != networkv1beta1.IPStatusValid {
+					continue
+				}
+				if pv := pods[ip.PodID]; pv != nil && pv.eligible {
+					w.fail("C02 violated in reconcile [%s]: (iv) the controller asked the cloud to unassign %s on %s, which the record binds to pod %s; the pod still exists\nbefore: %s\nafter:  %s", tag, a, c.ENI, ip.PodID, c02RenderRecord(prev.Status.NetworkInterfaces), c02RenderRecord(cur.Status.NetworkInterfaces))
+				}
+			}
+		}
+	}
 	// C02 (iv) under drift: once a full sync has been persisted, an address the cloud lost
 	// must not stay bindable (Valid on an interface in use) in the record
 	if w.writeErrs == 0 && len(w.drifted) > 0 {
@@ -491,7 +525,7 @@ func (w *c02World) step(tag string) c02StepResult {
 	}
 
 	// C02: invariants on the persisted record
-	msg, facts := c02CheckRecord(prev.Status.NetworkInterfaces, cur.Status.NetworkInterfaces, pods, w.everPod, w.s.Node.ERDMA)
+	msg, facts := c02CheckRecord(prev.Status.NetworkInterfaces, cur.Status.NetworkInterfaces, pods, w.everPod, detached, w.s.Node.ERDMA)
 	for f := range facts {
 		w.c.Label("c02:" + f)
 	}
@@ -938,6 +972,19 @@ func (w *c02World) drift(tag string, o c02Op) {
 		w.cloud.DriftDetachENI(e.ID)
 		w.trace("[%s] drift: interface %s detached", tag, e.ID)
 		w.c.Label("drift:detach")
+	case "ipstatus":
+		if len(e.V4) < 2 {
+			return
+		}
+		ip := e.V4[1+o.B%(len(e.V4)-1)]
+		if w.cloud.DriftIPStatus(e.ID, ip.Addr, cloudctl.StatusExecuting, 1+o.B%3) {
+			w.trace("[%s] drift: the cloud reports %s on %s as %s for a while", tag, ip.Addr, e.ID, cloudctl.StatusExecuting)
+			w.c.Label("drift:ipstatus")
+			if o.C == 1 {
+				w.forceFullSync()
+				w.step(tag)
+			}
+		}
 	case "addip":
 		got := w.cloud.DriftAddIP(e.ID, 1+o.B%3, o.C == 1 && w.s.Node.V6)
 		w.trace("[%s] drift: %v added to %s", tag, got, e.ID)
